@@ -7,6 +7,7 @@ from __future__ import annotations
 
 from hypothesis import strategies as st
 
+from . import known as _known
 from .alu import INT_MAX, INT_MIN
 from .lang import (
     AllOf, AnyOf, Assign, Bin, BLit, BSel, Cond, Decl, Num, Paren, Place, Program, Proj, PropRead, Ref,
@@ -693,6 +694,20 @@ def feedback_program(draw, early_virtual=True):
     if readers_first:
         stmts.extend(reader_stmts)
     cur = base
+    if draw(st.integers(0, 4)) == 0:
+        # the cell enters f twice: both uses one combinator deep, or - unless the open finding
+        # F-feedback-path-skew is steered around - at different depths (x + x*2)
+        def leg():
+            o = draw(st.sampled_from(["*", "+", "XOR"]))
+            return Bin(o, base, Num(draw(st.integers(2, 5) if o == "*" else st.integers(1, 9))))
+
+        left, right = leg(), leg()
+        if not _known.active("feedback-path-skew") and draw(st.booleans()):
+            left = base
+        cur = Bin(draw(st.sampled_from(["+", "-", "XOR"])), left, right)
+        if named:
+            stmts.append(Decl("Signal", "sd", cur))
+            cur = Ref("sd")
     free_held = list(held)
     for i in range(k):
         op = draw(st.sampled_from(["+", "+", "*", "%", "-", "XOR", "AND", "OR", "/", "<<", ">>"]))
@@ -800,6 +815,37 @@ def grid_positions(draw, n, spread=6, neg=True):
 
 
 @st.composite
+def scalar_with_consumers(draw, early_virtual=True, linear=True):
+    """A scalar program whose named results also drive lamps: the exported values must not care
+    whether an entity consumes (and possibly inlines) one of the comparisons on the way."""
+    prog = draw(scalar_program(early_virtual=early_virtual, linear=linear, max_stmts=5))
+    stmts = list(prog.stmts)
+    from .lang import is_input_decl as is_input
+
+    inputs = [s.name for s in stmts if is_input(s)]
+    lamps = 0
+    # an explicit inlinable comparison with an entity consumer and a scalar consumer, in either order
+    if inputs and draw(st.integers(0, 2)) != 0:
+        src = draw(st.sampled_from(inputs))
+        c = Decl("Signal", "cq", Bin(draw(st.sampled_from(CMPS)), Ref(src), draw(num(small_int()))))
+        lamp = [Decl("Entity", "lq", Place("small-lamp", Num(40), Num(40))), Assign("lq", "enable", Ref("cq"))]
+        w = Decl("Signal", "wq", Bin(draw(st.sampled_from(["+", "*", "-"])), Ref("cq"), Num(draw(st.integers(1, 9)))))
+        stmts += [c] + (lamp + [w] if draw(st.booleans()) else [w] + lamp)
+        lamps += 1
+    # lamps on arbitrary named results, placed anywhere after the declaration
+    named = [(i, s.name) for i, s in enumerate(stmts) if isinstance(s, Decl) and s.kind == "Signal" and not is_input(s) and s.name != "cq"]
+    for j in range(draw(st.integers(0, 2))):
+        if not named:
+            break
+        i, name = draw(st.sampled_from(named))
+        at = draw(st.integers(i + 1, len(stmts)))
+        stmts[at:at] = [Decl("Entity", f"lr{j}", Place("small-lamp", Num(44 + 3 * j), Num(40))), Assign(f"lr{j}", "enable", Ref(name))]
+        named = [(k if k < at else k + 2, n_) for k, n_ in named]
+        lamps += 1
+    return Program(tuple(stmts))
+
+
+@st.composite
 def balanced_program(draw):
     """Sources that each enter two merges, one of which feeds the other ("balanced loader"):
     total = {s1..sn}; f = total op k; d_i = {f, s_i}; one consumer per d_i. Sources are chest outputs;
@@ -864,14 +910,21 @@ def entity_program(draw, steer=True, early_virtual=True, avoid_nocond=True, max_
         outs.append((b, sigs))
         sc.bundles.append(b)
     protos = CONTROLLABLE + ([] if avoid_nocond else NO_CONDITION_PROTOS)
+    named_cmps, trailing = [], []
     for i in range(n_ent):
         proto = draw(st.sampled_from(protos))
         var = f"ent{i + 1}"
         x, y = pos.pop()
         stmts.append(Decl("Entity", var, Place(proto, Num(x), Num(y))))
-        k = draw(st.integers(0, 9))
+        k = draw(st.integers(0, 11))
         e = None
-        if k <= 2:  # inlinable x CMP c
+        if k >= 10 and named_cmps:  # a named comparison that already drives another entity
+            e = Ref(draw(st.sampled_from(named_cmps)))
+        elif k >= 10:
+            k = 8
+        if e is not None:
+            pass
+        elif k <= 2:  # inlinable x CMP c
             n = sc.pick(draw, sc.signals, False)
             if n:
                 e = Bin(draw(st.sampled_from(CMPS)), Ref(n), draw(num(small_int())))
@@ -907,6 +960,13 @@ def entity_program(draw, steer=True, early_virtual=True, avoid_nocond=True, max_
                 c = sc.fresh(draw, "c")
                 stmts.append(Decl("Signal", c, Bin(draw(st.sampled_from(CMPS)), Ref(n), draw(num(small_int())))))
                 e = Ref(c)
+                named_cmps.append(c)
+                if draw(st.integers(0, 3)) == 0:  # ... and also feeds a scalar result, declared before or after the entity uses it
+                    w = Decl("Signal", sc.fresh(draw, "w"), Bin(draw(st.sampled_from(["+", "*", "-"])), Ref(c), Num(draw(st.integers(1, 9)))))
+                    if draw(st.booleans()):
+                        stmts.append(w)
+                    else:
+                        trailing.append(w)
         elif k == 9:  # conditional value as enable: (x CMP c) : y  /  : K, written directly or through a name
             n = sc.pick(draw, sc.signals, True)
             m2 = sc.pick(draw, sc.signals, True)
@@ -920,6 +980,7 @@ def entity_program(draw, steer=True, early_virtual=True, avoid_nocond=True, max_
         if e is None:
             e = Num(draw(st.sampled_from([0, 1])))
         stmts.append(Assign(var, "enable", e))
+    stmts.extend(trailing)
     return Program(tuple(stmts)), contents
 
 
